@@ -107,9 +107,9 @@ def gen_history(rng):
     h = {'kind': kind, 'dtype': str(rng.choice(DTYPES)), 'row': [int(x) for x in ROWS[int(rng.integers(len(ROWS)))]],
          'bs': int(rng.integers(1, 6)), 'ops': []}
     n = int(rng.integers(5, 15))
-    st = {'nb': 0, 'flushed': False, 'snap': None, 'min_since_snap': 0}
+    st = {'nb': 0, 'phys': 0, 'flushed': False, 'snap': None, 'min_since_snap': 0}
     ops = h['ops']
-    use_restore = kind in ('store', 'pool') and rng.random() < 0.25
+    use_restore = kind in ('store', 'pool') and rng.random() < 0.3
 
     def emit(op):
         seed = int(rng.integers(0, 10 ** 6))
@@ -117,6 +117,7 @@ def gen_history(rng):
         if op == 'append':
             ops.append(['append', nb, seed])
             st['nb'] += 1
+            st['phys'] = max(st['phys'], st['nb'])
         elif op == 'overwrite' and nb > 0:
             ops.append(['overwrite', int(rng.integers(nb)), seed])
         elif op == 'read' and nb > 0:
@@ -124,9 +125,11 @@ def gen_history(rng):
         elif op == 'delete' and nb > 0:
             ops.append(['delete', nb - 1])
             st['nb'] -= 1
+            st['phys'] = st['nb']
         elif op == 'clear' and nb > 0:
             ops.append(['clear'])
             st['nb'] = 0
+            st['phys'] = 0
         elif op == 'snapshot':
             ops.append(['snapshot'])
             st['snap'] = st['nb']
@@ -138,6 +141,8 @@ def gen_history(rng):
         elif op in ('flush', 'reopen', 'pickle', 'save'):
             ops.append([op])
             st['flushed'] = True
+            if op == 'reopen' and kind != 'pool':
+                st['nb'] = st['phys']         # a freshly constructed store exposes the whole file
         if st['snap'] is not None:
             st['min_since_snap'] = min(st['min_since_snap'], st['nb'])
 
@@ -148,6 +153,17 @@ def gen_history(rng):
             emit('append')
         elif i == 2 and not st['flushed']:
             emit('flush')
+        elif use_restore and i == 3 and nb > 0:
+            # the writer persists its store, writes on, flushes and goes away without saving again; work continues from the persisted object
+            emit('snapshot')
+            for _k in range(int(rng.integers(1, 3))):
+                emit('append')
+            if rng.random() < 0.5:
+                emit('overwrite')
+            emit('flush')
+            emit('restore')
+            emit('append')
+            i += 3
         elif st['flushed'] and nb > 0 and rng.random() < 0.2:
             # hostile motif: unflushed append, a read (re-creates the memory map), in-place overwrite of an older batch
             emit('append')
@@ -328,25 +344,41 @@ class Driver:
         return s is not None and j in s
 
 
-def apply_model(h, model, op, state=None):
-    """model: {node: [batches]}"""
-    k = op[0]
-    if state is not None:
-        if k == 'snapshot':
-            state['snap_nb'] = len(next(iter(model.values())))
-        if k == 'restore':
-            for i in model:
-                del model[i][state['snap_nb']:]
-            state['restored'] = True
-    for i in model:
+class Model:
+    """Reference: the batches physically in the file (`phys`) and how many of them the store object exposes (`nb`).
+    They differ only after a store object persisted earlier was restored over a file that had grown meanwhile."""
+
+    def __init__(self, kind):
+        self.kind = kind
+        self.phys = []
+        self.nb = 0
+        self.snap_nb = None
+
+    def view(self):
+        return self.phys[:self.nb]
+
+    def apply(self, h, op, node):
+        k = op[0]
         if k == 'append':
-            model[i].append(mkbatch(h, op[2], i))
+            b = mkbatch(h, op[2], node)
+            if self.nb < len(self.phys):
+                self.phys[self.nb] = b          # the store overwrites the rows behind its end in place
+            else:
+                self.phys.append(b)
+            self.nb += 1
         elif k == 'overwrite':
-            model[i][op[1]] = mkbatch(h, op[2], i)
+            self.phys[op[1]] = mkbatch(h, op[2], node)
         elif k == 'delete':
-            model[i].pop()
+            self.nb -= 1
+            del self.phys[self.nb:]             # the file is truncated at the deleted batch
         elif k == 'clear':
-            del model[i][:]
+            self.phys, self.nb = [], 0
+        elif k == 'snapshot':
+            self.snap_nb = self.nb
+        elif k == 'restore':
+            self.nb = self.snap_nb
+        elif k == 'reopen' and self.kind != 'pool':
+            self.nb = len(self.phys)            # a freshly constructed store exposes the whole file
 
 
 def _concat(h, batches):
@@ -359,30 +391,22 @@ def _same(a, b):
     return a.dtype == b.dtype and a.shape == b.shape and a.tobytes() == b.tobytes()
 
 
-def _same_or_prefix(L, exp, restored, bs):
-    """After a store object persisted earlier was restored over a file that had grown meanwhile, the file may hold
-    further (batch-aligned) rows behind the batches the store reports; they are not part of the logical content."""
-    if not restored:
-        return _same(L, exp)
-    return L.dtype == exp.dtype and L.shape[1:] == exp.shape[1:] and len(L) >= len(exp) and len(L) % bs == 0 \
-        and L[:len(exp)].tobytes() == exp.tobytes()
-
-
 def counting_run(ctx, h, d):
     """Monitor A. Returns log = per op (count_after, {node: content bytes-array}, is_flush) and K."""
     CTL.count, CTL.kill_at, CTL.kinds = 0, None, []
     drv = Driver(h, d)
     nodes = list(range(len(NODES))) if h['kind'] == 'pool' else [0]
-    model = {i: [] for i in nodes}
+    models_ = {i: Model(h['kind']) for i in nodes}
     log = []
-    mstate = {}
     for oi, op in enumerate(h['ops']):
         begin = CTL.count
         drv.apply(op)
-        apply_model(h, model, op, mstate)
+        for i in nodes:
+            models_[i].apply(h, op, i)
+        model = {i: models_[i].view() for i in nodes}
         ctx.event('op_' + op[0])
-        log.append({'begin': begin, 'end': CTL.count, 'content': {i: _concat(h, model[i]) for i in nodes}, 'flush': op[0] in FLUSHING,
-                    'nb': {i: len(model[i]) for i in nodes}, 'restored': bool(mstate.get('restored'))})
+        log.append({'begin': begin, 'end': CTL.count, 'content': {i: _concat(h, models_[i].phys) for i in nodes}, 'flush': op[0] in FLUSHING,
+                    'nb': {i: len(model[i]) for i in nodes}})
         if op[0] == 'close':
             break
         where = 'after op %d %s' % (oi, op)
@@ -408,8 +432,8 @@ def counting_run(ctx, h, d):
                 except Exception as e:
                     raise Violation('npload', '%s: numpy.load fails after %s: %s' % (where, op[0], e))
                 ctx.event('npload_checks')
-                exp = _concat(h, model[idx])
-                if not _same_or_prefix(L, exp, mstate.get('restored'), h['bs']):
+                exp = _concat(h, models_[idx].phys)
+                if not _same(L, exp):
                     raise Violation('npload-content', '%s: numpy.load(file) differs from the concatenated batches after %s' % (where, op[0]),
                                     {'loaded_shape': L.shape, 'expected_shape': exp.shape})
     # final close check
@@ -417,7 +441,7 @@ def counting_run(ctx, h, d):
         idx = i if h['kind'] != 'pool' else NODES.index(i)
         L = np.load(f)
         ctx.event('npload_checks')
-        if not _same_or_prefix(L, _concat(h, model[idx]), mstate.get('restored'), h['bs']):
+        if not _same(L, _concat(h, models_[idx].phys)):
             raise Violation('npload-content', 'after close: numpy.load(file) differs from the concatenated batches')
     return log, CTL.count, list(CTL.kinds)
 
@@ -479,7 +503,7 @@ def run_case(ctx, h):
                         raise Violation('unloadable-after-kill', 'file does not load after a kill at %s low-level op %d (%s) during %s: %s' % (
                             phase, k, kinds[k - 1], h['ops'][inprog], str(e)[:200]), wit)
                     ctx.event('kill_states_loaded')
-                    if not any(_same_or_prefix(L, a, log[inprog]['restored'] or h['ops'][inprog][0] == 'restore', h['bs']) for a in adm):
+                    if not any(_same(L, a) for a in adm):
                         raise Violation('inadmissible-state-after-kill',
                                         'file content after the kill is not the logical content at any instant between the last completed flush and the kill '
                                         '(loaded %d rows; admissible row counts %s)' % (len(L), [len(a) for a in adm]), wit)
